@@ -141,6 +141,20 @@ func genAccept(r *core.Rand, produces, registered []string) []accRange {
 	return out
 }
 
+// paramFree keeps the media types without a parameter; "*/*" stands in when none is left.
+func paramFree(l []string) []string {
+	var out []string
+	for _, m := range l {
+		if !strings.Contains(m, ";") {
+			out = append(out, m)
+		}
+	}
+	if len(out) == 0 {
+		out = []string{"*/*"}
+	}
+	return out
+}
+
 func orderedSubsets(pool []string, max int, r *core.Rand, limit int) [][]string {
 	var all [][]string
 	var rec func(cur []string)
@@ -177,12 +191,12 @@ func orderedSubsets(pool []string, max int, r *core.Rand, limit int) [][]string 
 
 func c05(ctx *core.Ctx) {
 	quietLogs()
-	ctx.Rule("routes with every ordered Produces list (size 1-3) over the registered media types x generated Accept headers (1-18 ranges, q-values, parameters before/after q, */*, foreign types, absent, two header fields) x default response content type {unset, JSON, XML} x registered-writer set {built-in, +text/plain, +application/x-verif, +8 types registered concurrently}; handler calls WriteEntity / WriteHeaderAndEntity. Oracle: reference ranker; SP-decorated spelling and 3 repetitions must give the same choice. Non-trivial = an admitted request that wrote an entity; distinct by (writer set, default, produces list, winning rule: exact/star/absent, number of ranges bucket, decorated).")
+	ctx.Rule("routes with every ordered Produces list (size 1-3) over the registered media types x generated Accept headers (1-18 ranges, q-values, parameters before/after q, */*, foreign types, absent, two header fields) x default response content type {unset, JSON, XML} x registered-writer set {built-in, +text/plain, +application/x-verif, +8 types registered concurrently, +types registered with a parameter of their own (charset, version)}; handler calls WriteEntity / WriteHeaderAndEntity. Oracle: reference ranker; SP-decorated spelling and 3 repetitions must give the same choice. Non-trivial = an admitted request that wrote an entity; distinct by (writer set, default, produces list, winning rule: exact/star/absent, number of ranges bucket, decorated).")
 	ctx.Assume("Accept grammar: full media types and */*, well-formed q-values (malformed q and type/* ranges are outside the property)",
 		"with two Accept header fields only the reference-free clauses (Content-Type in Produces, never 406) are judged")
 	defer restful.DefaultResponseContentType("")
 	registered := []string{restful.MIME_JSON, restful.MIME_XML}
-	phases := []string{"builtin", "+text/plain", "+application/x-verif", "+concurrent"}
+	phases := []string{"builtin", "+text/plain", "+application/x-verif", "+concurrent", "+parameterised"}
 	headersPer := ctx.N(300, 6000)
 	caseIdx := 0
 	for pi, phase := range phases {
@@ -253,6 +267,15 @@ func c05(ctx *core.Ctx) {
 				}
 			}
 		}
+		if pi == 4 {
+			// writers registered under media types that carry a parameter of their own (a charset, a version): a route
+			// that Produces exactly that string is served by exactly that writer. Accept headers of this phase name
+			// parameter-free types and */* only (how a range with parameters selects among such entries is not specified)
+			for _, m := range []string{"application/json; charset=utf-8", "application/x-verif; version=2"} {
+				restful.RegisterEntityAccessor(m, customAccessor{m})
+			}
+			registered = []string{restful.MIME_JSON, "application/json; charset=utf-8", "application/x-verif; version=2", "text/plain"}
+		}
 		for _, def := range []string{"", restful.MIME_JSON, restful.MIME_XML} {
 			restful.DefaultResponseContentType(def)
 			r := ctx.Rand(caseIdx, "lists")
@@ -296,7 +319,11 @@ func c05(ctx *core.Ctx) {
 						mode = "twofields"
 					}
 					if mode != "absent" {
-						ranges = genAccept(rr, l, registered)
+						if pi == 4 {
+							ranges = genAccept(rr, paramFree(l), paramFree(registered))
+						} else {
+							ranges = genAccept(rr, l, registered)
+						}
 					}
 					send := func(accept []string, created bool) *rt.Outcome {
 						req := rt.Req{Method: "GET", Path: fmt.Sprintf("/n/p%d", li), Hdr: map[string]string{}}
